@@ -18,6 +18,8 @@ class XListSpec(SeqSpec):
         ideal = []
         nalloc = 0
         ops = []
+        # Values: all different, drawn from {0,1,2} (many nodes carry equal Values), or all equal
+        vstyle = rng.choice(["unique", "unique", "few", "few", "same"])
         for _ in range(nops):
             if not ideal:
                 k = rng.choice(["pushfront", "pushback", "clear"] if rng.random() < 0.1 else ["pushfront", "pushback"])
@@ -45,7 +47,7 @@ class XListSpec(SeqSpec):
                 if r < 0.65 and i > 0:
                     return a, ideal[i - 1]
                 return a, pick()
-            v = 10 * nalloc + 10
+            v = 10 * nalloc + 10 if vstyle == "unique" else rng.randrange(3) if vstyle == "few" else 7
             if k == "pushfront":
                 ops.append([k, v]); ideal.insert(0, nalloc); nalloc += 1
             elif k == "pushback":
@@ -71,7 +73,9 @@ class XListSpec(SeqSpec):
 
     def gen(self, rng, tier, scale):
         n = int((900 if tier == "quick" else 25000) * scale)
-        return [{"component": "xlist", "ops": self.gen_one(rng, rng.choice([3, 8, 20, 50, 100] if tier == "quick" else [5, 20, 60, 150, 300]))}
+        # inst: the element type the history is run on (int; any holding nil / uncomparable values; float64 with NaN)
+        return [{"component": "xlist", "ops": self.gen_one(rng, rng.choice([3, 8, 20, 50, 100] if tier == "quick" else [5, 20, 60, 150, 300])),
+                 "cfg": {"inst": rng.choice(["int", "int", "any", "float"])}}
                 for _ in range(n)]
 
     def op_term(self, op):
@@ -138,8 +142,11 @@ class XListSpec(SeqSpec):
             elif n == "clear":
                 ideal = []
             exp = [False, ideal, ideal[::-1], len(ideal), [vals[h] for h in ideal], True, True, True]
+            if ob[1][:1] == [777777]:
+                fails.append(("handle-not-fresh", "op %d %r returned a node that is a handle handed out earlier (handles do not keep their identity)" % (k, op)))
+                break
             if ob != exp:
-                what = ["panic", "forward-walk", "backward-walk", "len", "values", "front-has-prev", "back-has-next", "removed-node-not-isolated"]
+                what = ["panic", "forward-walk", "backward-walk", "len", "values", "front-has-prev", "back-has-next", "detached-node-not-isolated"]
                 d = next(i for i in range(8) if ob[i] != exp[i])
                 fails.append(("walk-mismatch:" + what[d], "op %d %r: %s is %r, ideal sequence gives %r" % (k, op, what[d], ob[d], exp[d])))
                 break
